@@ -358,6 +358,21 @@ def single_edit_sequence(w, rng, st):
     if rng.random() < 0.4:
         names = rng.sample(['labels', 'capacities', 'user_data'], rng.choice([2, 3]))
     steps = [{'op': 'checkpoint', 'replace': 0} if len(w.checkpoints) >= 2 else {'op': 'checkpoint'}]
+    if final.get('what') == 'interface' and rng.random() < 0.6:
+        # two sub-interfaces of the port edited differently (each must be reported with its own flags only)
+        kids = st.child_cps(final['cp'])
+        pref = iface_ref_(st, final['cp'])
+        if len(kids) >= 2 and pref:
+            k1, k2 = rng.sample(sorted(kids), 2)
+            for k, nm in ((k1, 'labels'), (k2, 'capacities')):
+                v = gen_value(rng, nm, 'interface')
+                if v is None:
+                    return None
+                steps.append({'op': 'edit_tracked', 'kind': 'interface', 'ref': dict(pref, sub=st.name(k)), 'name': nm,
+                              'val': v})
+            steps.append(dict(final, ckpt=min(len(w.checkpoints), 1)))
+            w.stats.inc('probe.diff.two_subinterfaces_edited')
+            return steps
     for nm in names:
         v = gen_value(rng, nm, kind)
         if v is None:
@@ -366,3 +381,8 @@ def single_edit_sequence(w, rng, st):
     steps.append(dict(final, ckpt=min(len(w.checkpoints), 1)))
     w.stats.inc('probe.diff.single_edit_sequences')
     return steps
+
+
+def iface_ref_(st, cp):
+    from .w2_ops import iface_ref
+    return iface_ref(st, cp)
